@@ -23,6 +23,10 @@ chk("C02",
     "Model checking of output determinism on the real code with every source of nondeterminism under explorer control: (1) every range-over-map site of package actionlint (70, rewritten by the overlay) is a choice point; for a collision corpus (same-position and several-candidate diagnostics) all executions with <=2 (thorough 3) non-identity iteration orders and for every workflow under testdata/examples|ok|err all executions with <=1 (thorough 2) must print the bytes of the identity execution; (2) multi-file LintFiles runs sharing broken callees: all interleavings up to 2 (thorough 3) preemptions x semaphore size {1,2} must print identical bytes; (3) all call histories up to depth 2 (thorough 3) on a reused Linter answer like a fresh one.",
     "Map iteration inside third-party packages is not controlled; GOMAXPROCS and repetition are covered only through interleavings/iteration orders under data-race freedom; permutation menu for maps with more than 4 keys is identity/reverse/rotations." + OVERLAY_NOTE,
     "stateless DFS over map-iteration-order and scheduling choice points with deviation/preemption bounding; oracle = identity execution")
+chk("C03",
+    "Bounded-exhaustive exploration of the position space of the workflow syntax: 4 maximal clean seeds that together populate every key of every section (schema written from the documentation) plus every clean reduction of each mapping to its mandatory keys and one pair of optional keys (pairwise sibling configurations); every scalar value position x 4 malformed placeholders, each mutated workflow linted by the real Linter and judged by position: at least one diagnostic inside the mutated scalar, an expression syntax error unless the position is exempt; thorough adds every pair of sibling positions mutated together.",
+    "Positions are those of the seeds (one occurrence per key of the syntax, block style); deeper repetitions of the same section are represented once." + OVERLAY_NOTE,
+    "exhaustive enumeration of (seed, position, payload) over a schema-derived catalogue; positional oracle")
 chk("C04",
     "Bounded-exhaustive model checking of ExprLexer/ExprParser: every token sequence of length <=5 (thorough 6) over a 22-token alphabet with all whitespace interleavings for short sequences, every character string of length <=5 (thorough 6) over the 26 lexically relevant characters, and a numeric sub-enumeration up to the 32/64-bit boundaries, each compared with a reference tokeniser and grammar written from the documented language (accept/reject, normalised tree = precedence, literal values, lower-casing, end offset, single error with offset inside the text); short sequences also through Linter.Lint in run: and bare if: positions.",
     "Sentences longer than the bounds are not explored (the 'randomly beyond the bound' part of the quantifier is not claimed); token classes are represented by one spelling each in the token enumeration; appendix-A don't-care classes are not compared." + OVERLAY_NOTE,
